@@ -506,7 +506,7 @@ pub fn cases(seed: u64, tier: Tier) -> Cases {
             let hc = if rng.chance(1, 2) { Some(ColorAlias(gen_color(&mut rng))) } else { None };
             let log = format!("aliases(p={:?}, qa={:?}, qc={:?}, qoa={:?}, hu={:?}, qd={:?}, qb={:?}, qsl={:?}, qdt={:?}, qbt={:?}, hc={:?})", p, qa, qc, qoa, hu, qd.to_bits(), qb, qsl, qdt, qbt.as_ref().map(|t| t.as_str().to_string()), hc);
             both!(run, rng, r, |c, fl| {
-                let out = call!(fl, c, aliases(&p, &qa, &qc, &qoa, hu.clone(), qd, qb, qsl, qdt, qbt.as_ref(), hc.as_ref()), |v: Vec<String>| format!("{:?}", v));
+                let out = call!(fl, c, aliases(&p, &qa, &qc, &qoa, hu.clone(), DblAlias(qd), qb, qsl, qdt.map(DateTimeAlias), qbt.as_ref(), hc.as_ref()), |v: Vec<String>| format!("{:?}", v));
                 let texts = Texts(vec![vec![plain(&p)], qa.0.iter().map(plain).collect(), vec![plain(&qc)], (qoa.0).0.iter().map(plain).collect(), vec![plain(&hu)], vec![plain(&qd)], vec![plain(&qb)], vec![plain(&qsl)], qdt.iter().map(plain).collect(), qbt.iter().map(plain).collect(), hc.iter().map(plain).collect()]);
                 run.check(fl, "aliases", texts, ("none", 0), "json", true, &c, out, log.clone(), format!("{:?}", r.aliases), false);
             });
